@@ -248,6 +248,12 @@ theorem expireOpt_nofuel (valid : Bool) (db : Db) (k : Bytes) (dl : Option Nat) 
       · simp at h; exact Or.inl h.symm
       · split at h <;> simp at h
 
+theorem ensureStream_nofuel (valid : Bool) (db : Db) (k : Bytes) : NoFuel (ensureStream valid db k) := by
+  apply nofuel_of; intro e' h; unfold ensureStream at h
+  split at h
+  · simp at h; exact Or.inl h.symm
+  · split at h <;> simp at h; exact Or.inr (Or.inl h.symm)
+
 theorem nofuel_ok {α : Type} (a : α) : NoFuel (.ok a : Except Err α) := by
   intro e h; cases h
 
@@ -339,6 +345,7 @@ theorem loadTyped_good {N : Nat} (fix : Fix) (valid : Bool) (db : Db) (ty : Nat)
           · eng (nofuel_ite _ _ _ (setValue_nofuel _ _ _) (nofuel_ok _))
             rename_i r2' hr2'
             rd (streamLoop_good _ _ _ _ _ _ r2' (Nat.lt_succ_self _) (by omega))
+            eng (nofuel_ite _ _ _ (ensureStream_nofuel _ _ _) (nofuel_ok _))
             eng (expireOpt_nofuel _ _ _ _)
             exact good_ok _ _ _ (by omega)
           · split
